@@ -78,3 +78,8 @@ chk("C14", "PBT over InnerTxnBuilder.MethodCall/ExecuteMethodCall argument lists
     "Generated signatures and argument forms (ABI instances, pre-encoded bytes, reference expressions, transaction field dicts, extra_fields, app_id None) are executed; the recorded inner group must show the right selector, reference encodings in order, one-byte reference indices that resolve through the foreign arrays to the intended account/app/asset, transaction arguments as the preceding group members, and ill-typed argument lists must be refused at build time.",
     "Trusts algosdk.abi encodings, vf/avm inner-transaction recording, C04 static predicate.",
     "DESIGN.md section 2 C14")
+
+chk("C10", "model-based PBT: programs over up to 180 live variables of every storage kind with unique markers; per-variable cell model (evaluator) vs execution; slot-limit and duplicate-id cases must be rejected/accepted exactly at 256",
+    "Variables of all kinds (auto/explicit ScratchVars, ABI values as scratch or frame cells incl. >128 locals, DynamicScratchVars re-pointed over time) are written with unique markers and read back in random interleavings across main and subroutines under every option setting; each observed read must equal the model's last store; requested ids must be the slots used; programs needing >256 slots or duplicating a requested id must be rejected, those within the limit accepted.",
+    "Trusts vf/recipe/eval.py cell model, vf/avm, C04 static predicate.",
+    "DESIGN.md section 2 C10")
